@@ -15,7 +15,7 @@ func main() {
 		pkgs := gombokrun.Pack(gombokrun.ModeLaws, shapes, gombokrun.PackSize(r.Thorough()))
 		gombokrun.Register(r, gombokrun.ModeLaws, pkgs)
 		r.Post = gombokrun.Post(gombokrun.ModeLaws)
-		r.Rule = "programs: every struct declaration of the grammar (field kind x visibility x tag; one-field, two-field (thorough), field counts, generic constraint forms, grouped fields, special field names, user-written members, field types from user packages named like the packages the generated code imports - option/as/fp/fmt/json/http, one declaration per package -, two files using one package name for two packages) under every annotation set, packed " +
+		r.Rule = "programs: every struct declaration of the grammar (field kind x visibility x tag; one-field, two-field (thorough), field counts, generic constraint forms, grouped fields, special field names, user-written members, field types from user packages named like the packages the generated code imports - option/as/fp/fmt/json/http, one declaration per package -, two files using one package name for two packages) under every annotation set, and a one-field/three-field selection under 11 combinations of annotations (Value+With, Value+Getter, Value+Builder, Value+Getter+With, Value+With+Json, Value+AllArgsConstructor, Getter+With+Builder, Value+String, Value+With+GenLabelled, Value+Getter+With+Json+GenLabelled, With+Value), packed " +
 			"20 (quick) / 40 (thorough) per scratch package; one scenario = one package: declarations -> gombok from the tree under test (GOPACKAGE/cwd as go generate sets them) -> go build (-gcflags=-e) together with a generated law test in the same package -> run. " +
 			"A struct whose output does not compile is blamed by error position (bisection as fallback), confirmed in a package of its own, reported as compile/<shape>, removed, and the rest is law-checked. " +
 			"inputs: for every struct all combinations of two position-tagged values per field (up to 6 fields; beyond that all-first, all-second and every one-hot deviation from both). " +
@@ -36,13 +36,14 @@ func main() {
 			emb = append(emb, k.ID)
 		}
 		r.Extra["bounds"] = map[string]any{
-			"field_kinds":      ids,
-			"embedded_forms":   emb,
-			"visibilities":     []string{"priv", "pub", "und (_name)", "blank (_)", "emb"},
-			"annotation_sets":  []string{"Value", "Value+Json", "Value+GenLabelled", "Value+Json+GenLabelled", "Getter+With", "Builder", "AllArgsConstructor", "Value+Json+GenLabelled with user-written members"},
-			"shapes":           len(shapes),
-			"packages":         len(pkgs),
-			"values_per_field": 2,
+			"field_kinds":             ids,
+			"embedded_forms":          emb,
+			"visibilities":            []string{"priv", "pub", "und (_name)", "blank (_)", "emb"},
+			"annotation_combinations": []string{"v+w", "v+g", "v+b", "v+g+w", "v+w+j", "v+aac", "g+w+b", "v+s", "v+w+l", "v+g+w+j+l", "w+v"},
+			"annotation_sets":         []string{"Value", "Value+Json", "Value+GenLabelled", "Value+Json+GenLabelled", "Getter+With", "Builder", "AllArgsConstructor", "Value+Json+GenLabelled with user-written members"},
+			"shapes":                  len(shapes),
+			"packages":                len(pkgs),
+			"values_per_field":        2,
 		}
 		r.Extra["uncovered"] = []string{
 			"private fields named asTuple / unapply / string: gombok lets the getter win and emits no AsTuple / Unapply / String, which leaves no law to test",
